@@ -226,7 +226,8 @@ class LinearTransformation(Transformation):
             return forwarded | self._input_channels_set
 
     def __hash__(self):
-        return hash((self._input_channels, self._output_channels, self._matrix.tobytes()))
+        # equal matrices must have equal hashes regardless of their dtype and the sign of zeros
+        return hash((self._input_channels, self._output_channels, tuple(self._matrix.ravel().tolist())))
 
     def __eq__(self, other):
         if isinstance(other, LinearTransformation):
